@@ -49,6 +49,27 @@ CHECKS = {
          "regenerated from the source on each run and proved to agree; correspondence: byte identity of re-serialisation, rule "
          "listing and scan results of original vs reloaded scanner.", "DESIGN.md §7 C10, notes/C10.md",
          "translators/wire_schema.py is trusted; objects rebuilt on load are identified with their construction parameters."),
+ "C11": ("proof", "C11_union and companions: the fragmented scan of the model is the region-order concatenation of per-region scans "
+         "(no spanning match, failed fetch contributes nothing, single region at 0 = direct scan, filesize undefined, read/ "
+         "range logic of Memory); correspondence on region layouts, fetch failures and scan modes against per-region scan_mem "
+         "and the model.", "DESIGN.md §7 C11, notes/C11.md",
+         "Read/range completeness and find_at on ascending layouts are checked by correspondence; binary search is modelled by "
+         "the installed std algorithm. Open finding C11-region-order."),
+ "C12": ("proof", "C12_per_variable: one shared Aho-Corasick automaton with de-duplicated atoms gives each string exactly the "
+         "result of scanning it alone, for every matcher kind, direct and fragmented; correspondence on pairs of rule sets built "
+         "to collide on atoms, all interleavings for small sets.", "DESIGN.md §7 C12, notes/C12.md",
+         "The rule-level union statement relies on C05 and is checked implementation against implementation."),
+ "C14": ("proof", "C14_limit: no string exceeds string_max_nb_matches for any matcher kind and region layout; match records are "
+         "StringMatch::new of one fetched region (bounds, positive length, capped data); prefix relation for raw matchers; "
+         "correspondence on max_len x limit boundary grids for every matcher kind.", "DESIGN.md §7 C14, notes/C14.md",
+         "Atomized and raw regex matchers enter through the implementation's own unlimited run; the AC prefix statement is "
+         "kept as a Definition."),
+ "C16": ("proof", "Theorems for argument/range clipping, on_range over fragmented memory, cache consistency, checksum32, CRC-32 "
+         "(table = bitwise), string.to_int = strtoll with full consumption, streaming digests and the integer cores of the math "
+         "functions; correspondence through a probe module with Gallina MD5/SHA-1/SHA-256/CRC-32 references and exact rational "
+         "values (1e-9 relative tolerance) for floats.", "DESIGN.md §7 C16, notes/C16.md",
+         "Mode minimality, deviation by histogram, the serial-correlation closed form and the log2 enclosure are tied by the "
+         "correspondence only; RustCrypto and crc32fast enter by the streaming contract."),
  "C15": ("proof", "Interruption model over the scanner model with a per-expression count of timeout checks; correspondence at "
          "EVERY callback-abort point and EVERY timeout check of each generated scan (error kind, returned rules, events, number "
          "of checks), each followed by a normal scan; prefix / no-spurious-match decided against the uninterrupted run.",
@@ -77,11 +98,7 @@ PENDING = {
  "C03": "check under construction (regex strings / matches operator: Spec/Regex.v exists, property module not yet registered)",
  "C07": "check under construction (three-way run against libyara 4.5.5 not yet built)",
  "C09": "check under construction (exploration harness and kernel no-panic theorems in progress)",
- "C11": "check under construction (fragmented scan model in progress)",
- "C12": "check under construction (per-variable decomposition proved in Proofs, property module not yet registered)",
  "C13": "check under construction (clone isolation / cache transparency model in progress)",
- "C14": "check under construction (limits model in progress)",
- "C16": "check under construction (hash / math / string function models in progress)",
 }
 
 
